@@ -609,14 +609,23 @@ def find_valuation(forms: List[Lin], pred, limit: int = 200000):
             doms.append(list(range(lo, hi + 1)))
         else:
             top = hi if hi is not None else (1 << 60)
-            cand = sorted({lo, lo + 1, lo + 2, lo + 3, max(lo, top - 1), top, (lo + top) // 2} & set(range(lo, top + 1)) if top - lo < 64
-                          else {lo, lo + 1, lo + 2, lo + 3, top - 1, top, (lo + top) // 2})
-            doms.append(sorted(cand))
+            cand = {lo, lo + 1, lo + 2, lo + 3, max(lo, top - 1), top, (lo + top) // 2}
+            k = 4
+            while lo + k <= top and len(cand) < 24:        # single high bits: values whose low digits are zero
+                cand.add(lo + k)
+                k <<= 1
+            doms.append(sorted(c for c in cand if lo <= c <= top))
     total = 1
     for d in doms:
         total *= len(d)
     if total > limit:
-        return None
+        # too many combinations: thin the large domains down to their corner values
+        doms = [d if len(d) <= 13 else sorted(set(d[:4] + d[-2:] + d[4:8])) for d in doms]
+        total = 1
+        for d in doms:
+            total *= len(d)
+        if total > limit:
+            return None
 
     def fnval(atom, args):
         tb = codec.TABLES.get(atom.name)
